@@ -3,6 +3,7 @@
 package main
 
 import (
+	"reflect"
 	"errors"
 	"fmt"
 	"io"
@@ -473,7 +474,39 @@ func c02NumSet(r *c02G, uid bool) imap.NumSet {
 
 // c02FmtNumSet renders a caller-side set range by range (the stub prints String(), which is the
 // same text; an empty literal set prints as "seq:" / "uid:").
-func c02FmtNumSet(ns imap.NumSet) string { return fmtNumSet(ns) }
+func c02FmtNumSet(ns imap.NumSet) string {
+	// the caller's intent is rendered WITHOUT the library's String()/IsSearchRes (the text is what the
+	// model is told the caller passed): the marker is the value SearchRes() returned, by identity
+	num := func(n uint32) string {
+		if n == 0 {
+			return "*"
+		}
+		return strconv.FormatUint(uint64(n), 10)
+	}
+	rng := func(a, b uint32) string {
+		if a == b {
+			return num(a)
+		}
+		return num(a) + ":" + num(b)
+	}
+	var parts []string
+	switch v := ns.(type) {
+	case imap.SeqSet:
+		for _, r := range v {
+			parts = append(parts, rng(r.Start, r.Stop))
+		}
+		return "seq:" + strings.Join(parts, ",")
+	case imap.UIDSet:
+		if len(v) == 0 && cap(v) > 0 && reflect.ValueOf(v).Pointer() == reflect.ValueOf(imap.SearchRes()).Pointer() {
+			return "uid:$"
+		}
+		for _, r := range v {
+			parts = append(parts, rng(uint32(r.Start), uint32(r.Stop)))
+		}
+		return "uid:" + strings.Join(parts, ",")
+	}
+	return "?"
+}
 
 // ---------------------------------------------------------------------------------------------
 // command generators
